@@ -48,6 +48,10 @@ def exhaustive(tier):
         if k not in seen:
             seen.add(k)
             nets.append(c["net"])
+    if tier == "thorough":
+        from .c09 import three_var_slice
+
+        nets += three_var_slice(16411)
     out = []
     for nj in nets:
         for sp in itertools.product((None, 0, 1), repeat=len(nj["names"])):
